@@ -57,28 +57,41 @@ TRUSTED = [
     "export/import and freeze/thaw clause, modelled by hand (Log/Export.v) and proved (Log/ExportProofs.v, Props/C18.v "
     "C18_dict_roundtrip .. C18_frozen_export): Message.to_dict(extended)/from_dict, Block(**kwargs)/finalize as far as from_dict uses "
     "them, the exact-type dispatch of HippoLLSDNotationFormatter._generate (type_map + the iter() fallback for bytearray) as `tree_of`, "
-    "the Python objects the notation parser builds as `pv_of`, AbstractMessageLogEntry.__init__'s meta dict for region = session = None, "
+    "the Python objects the notation parser builds as `pv_of`, LLUDPMessageLogEntry._restore_value_classes (fix 23066bc) as "
+    "`restore_msg`, AbstractMessageLogEntry.__init__'s meta dict for region = session = None, "
     "to_dict / apply_dict (str(UUID) / UUID(str) of the three UUID-valued meta keys, only the 8-4-4-4-12 spelling), the region_name / "
     "summary properties, LLUDPMessageLogEntry / EQMessageLogEntry to_dict / from_dict, export_log_entries / import_log_entries, "
     "LLUDPMessageLogEntry.freeze / message / name / method / seq (live message = shared mutable object in an explicit heap).  The "
     "notation formatter and parser themselves are property C12's model (Llsd/LlsdNotation.v, LlsdNotationParse.v) and its proved "
     "round trip (parse_not_fmt = C12_not_roundtrip) is reused under exactly its hypotheses (wfn + oracles_ok of the exported tree, "
     "the two lexical hypotheses on repr(float) and the date string)",
+    "export/import, the message template: what _restore_value_classes reads off it (per (message, block, variable): the coordinate "
+    "class _COORD_CLASSES gives the variable's type, or 'Fixed / Variable and not probably_binary') is a PARAMETER `tk` of the model "
+    "and of every theorem (forall tk); it is tied by correspondence, not by a generated table: with every case the harness reads the "
+    "facts of every variable met off the LIVE DEFAULT_TEMPLATE_DICT and the live _COORD_CLASSES (template_kind in this file) and "
+    "hands them to the extracted model; every wire-decoded message of every run must satisfy the hypothesis `deser_classes tk m` of "
+    "the exact theorem (checked, a failure is a disagreement), and whenever the model says deser_classes the REAL "
+    "Message.__eq__(restored, logged) must hold",
     "export/import, oracles (explicit premises of the theorems, never assumed globally): repr / ast.literal_eval and gzip are "
     "assumed inverse on the ONE exported value, pickle.loads(pickle.dumps(x)) == x and a non-empty pickle on the objects actually "
     "pickled, repr(float) / float() and Message.to_summary as functions.  All of them are exercised unabstracted by the suite "
     "'entry export / import' (the real import_log_entries(export_log_entries(list)) against norm_entry) and 'freeze / thaw machine'",
-    "export/import, what is proved to be LOST (C18_dict_classes_lost_refuted, C18_value_fixed_iff_plain): the class of Vector2/3/4 / "
-    "Quaternion (-> list of floats), JankStringyBytes / RawBytes (-> bytes), bytearray (-> list of ints), tuple (-> list), "
-    "hippolyzer UUID (-> uuid.UUID), bytearray extra (-> bytes), tuple acks (-> list); everything else of to_dict(extended=True) "
-    "is kept (block lists incl. present-but-empty ones, order, packet id, meta, flags, direction).  The impl-level oracle of this "
-    "clause ('freeze/thaw + export/import') compares modulo exactly these classes plus the re-serialised datagram; on the live code "
-    "Message.__eq__ and filters such as `Foo.Bar.V == (1.0, 2.0, 3.0)` / `Foo.Bar.J == 'abc'` DO distinguish an imported entry "
-    "from the logged one (measured every run, evidence notes; reported, not a verdict)",
-    "export/import, freeze(): the model carries one flag, repickle = 'freeze() pickles the message it has just resolved'; the code "
-    "as it stands pickles self._message (None once frozen), so a second freeze() loses the message (C18_freeze_twice_refuted; proposed "
-    "repair .proposed/C18-freeze-twice.diff, with which C18_freeze_idempotent applies); the harness probes the live code and drives "
-    "the model with the value found",
+    "export/import, what is proved: for a standard entry around a message with the deserializer's classes (C18_export_import_exact, "
+    "C18_import_exact) import(export e) = e EXACTLY up to the cached summary, extra as bytes and acks as a list (neither is read by "
+    "Message.__eq__), and the imported entry is a fixed point (C18_export_import_stable); for arbitrary hand-built messages only the "
+    "normal form (C18_export_import, C18_dict_roundtrip): the dict / notation leg loses the class of Vector2/3/4 / Quaternion, "
+    "JankStringyBytes / RawBytes, bytearray, tuple, hippolyzer UUID (C18_dict_classes_lost_refuted, C18_value_fixed_iff_plain) and "
+    "the restoration brings back only what the template knows.  The impl-level oracle ('freeze/thaw + export/import') now ASSERTS for "
+    "every wire-decoded message: Message.__eq__(imported, logged), identical value classes, and equal answers of `== (x, y, z)` / "
+    "`< (..)` / `== 'text'` filters on the logged and the imported entry (classes export-import-message-eq / -value-classes / "
+    "-filter-differs, entry-dict-*); hand-built messages outside the template are compared modulo the lost classes as before",
+    "export/import, freeze(): the model carries one flag, repickle = 'freeze() pickles the message it has just resolved' = the code "
+    "since fix e4edfe3 (C18_freeze_idempotent is the headline; C18_hist_freeze_twice_refuted keeps the old behaviour as history); the "
+    "harness probes the live code and drives the model with the value found; the impl-level oracle asserts that freezing twice keeps "
+    "the message (class freeze-twice)",
+    "export/import, restoration outside the model (cases left out of that one comparison, counted as restore_outside_model): a "
+    "coordinate variable holding an array with a component that is not a float (float() of it) and a Quaternion variable holding "
+    "fewer than four components (W computed with sqrt); an array longer than the class raises in code and model alike",
     "export/import, not modelled: HTTPMessageLogEntry (mitmproxy flow state: impl-level oracle only), datetime values inside "
     "event-queue events (no generated case; the model has the constructor), lazy parsing of the logged message (to_dict calls "
     "ensure_parsed first; C02) - lazily decoded messages are part of every suite -, Message.offset / body_boundaries / queued / "
@@ -639,6 +652,24 @@ def ref_leaf(entry, l):
     ops = {"==": o.eq, "!=": o.ne, "<": o.lt, "<=": o.le, ">": o.gt, ">=": o.ge, "&": o.and_,
            "^=": lambda v, e: v is not None and v.startswith(e), "$=": lambda v, e: v is not None and v.endswith(e),
            "~=": lambda v, e: v is not None and e in v}
+    # vector fields: the comparison operators are component-wise ("all components"), == / != compare the component tuples -
+    # spelled out here so that the reference does not go through TupleCoord's own rich-comparison methods
+    def _vec(f):
+        def g(v, e):
+            if isinstance(v, TupleCoord) and isinstance(e, (tuple, TupleCoord)):
+                return f(tuple(v), tuple(e))
+            return None
+        return g
+    vec_ops = {"==": _vec(lambda a, b: a == b), "!=": _vec(lambda a, b: a != b),
+               "<": _vec(lambda a, b: all(x < y for x, y in zip(a, b))), "<=": _vec(lambda a, b: all(x <= y for x, y in zip(a, b))),
+               ">": _vec(lambda a, b: all(x > y for x, y in zip(a, b))), ">=": _vec(lambda a, b: all(x >= y for x, y in zip(a, b)))}
+    for _k, _f in list(ops.items()):
+        def _mk(k=_k, f=_f):
+            def h(v, e):
+                r = vec_ops[k](v, e) if k in vec_ops else None
+                return f(v, e) if r is None else r
+            return h
+        ops[_k] = _mk()
     msg = entry.message
     keys = []
     for bname, blocks in msg.blocks.items():
@@ -982,6 +1013,16 @@ def gen_filter_cases(ctx):
         yield "fixed", f, e
     for f in subfield_family():
         yield "subfield", f, {"type": "FIXTURE"}
+    # vector bounds: every operator against every bound that is below / equal / above the field on each axis independently
+    vent = {"type": "LLUDP", "name": "Foo", "blocks": [["Bar", [["Baz", ["vec3", [float(1).hex(), float(2).hex(), float(3).hex()]]],
+                                                                 ["Quux", ["vec4", [float(1).hex(), float(2).hex(), float(3).hex(), float(4).hex()]]]]]]}
+    for d in itertools.product((-1, 0, 1), repeat=3):
+        bound = ["lit", ["tuple", [["int", 1 + d[0]], ["int", 2 + d[1]], ["int", 3 + d[2]]]]]
+        for op in OPS:
+            yield "vecbound", ["leaf", ["Foo", "Bar", "Baz"], op, bound], vent
+        b4 = ["lit", ["tuple", [["int", 1 + d[0]], ["int", 2 + d[1]], ["int", 3 + d[2]], ["int", 4]]]]
+        for op in ("<=", ">=", "==", "!=", "<", ">"):
+            yield "vecbound", ["leaf", ["Foo", "Bar", "Quux"], op, b4], vent
     for f in all_trees(EXH_LEAVES, ctx.pick(2, 2)):
         yield "exh", f, EXH_ENTRY
     rng = ctx.rng
@@ -1810,6 +1851,75 @@ def gen_wire_specs(ctx):
         yield {"type": "WIRE", "hex": w.hex(), "lazy": rng.random() < 0.4, "tags": tags}
 
 
+def value_classes(msg):
+    return [(bn, i, vn, type(x).__name__) for bn, bl in msg.blocks.items() for i, b in enumerate(bl) for vn, x in b.vars.items()]
+
+
+_FILTER_MEMO = {}
+
+
+def wire_filters(msg, limit=4):
+    """comparisons a user would type against the variables of a logged message: `== (x, y, z)` on coordinates (`<` a large
+    tuple when the components cannot be written as filter literals), `== 'text'` on stringy bytes and text"""
+    import re
+    from hippolyzer.lib.base.datatypes import TupleCoord, JankStringyBytes
+    out = []
+    ident = re.compile(r"^[A-Za-z][A-Za-z0-9]*$")
+    if not ident.match(msg.name):
+        return out
+    for bn, bl in msg.blocks.items():
+        for b in bl[:1]:
+            for vn, x in b.vars.items():
+                if not (ident.match(bn) and ident.match(vn)):
+                    continue
+                sel = "%s.%s.%s" % (msg.name, bn, vn)
+                if isinstance(x, TupleCoord) and len(tuple(x)) in (3, 4):
+                    comps = [repr(c) for c in x]
+                    if all(re.match(r"^\d+(\.\d+)?$", c) for c in comps):
+                        out.append((sel + " == (" + ", ".join(comps) + ")", True))
+                    else:
+                        out.append((sel + " < (" + ", ".join(["4294967296"] * len(comps)) + ")", None))
+                elif isinstance(x, (JankStringyBytes, str)):
+                    t = str(x)
+                    if t and len(t) < 40 and all(32 <= ord(c) < 127 and c not in "'\"\\" for c in t):
+                        out.append((sel + " == '" + t + "'", True))
+                if len(out) >= limit:
+                    return out
+    return out
+
+
+def same_message(stage, key, base, logged_entry, ref, got_entry):
+    """since fix 23066bc an imported wire-decoded message IS the logged one: equal under Message.__eq__, value classes
+    identical, and filters give the same answer on the logged and on the imported entry.  returns violation or None"""
+    from hippolyzer.lib.proxy.message_filter import compile_filter
+    msg = got_entry.message
+    try:
+        eq = (msg == ref) is True
+    except Exception as ex:
+        eq = "EXC:" + type(ex).__name__
+    if eq is not True:
+        return dict(base, clause=stage + " preserves the logged message (Message.__eq__)", **{"class": key + "-message-eq"},
+                    message=ref.name, got=eq, want=True)
+    c0, c1 = value_classes(ref), value_classes(msg)
+    if c0 != c1:
+        diff = [(a, b) for a, b in zip(c0, c1) if a != b][:4]
+        return dict(base, clause=stage + " preserves the class of every value of the logged message", **{"class": key + "-value-classes"},
+                    message=ref.name, got=[list(b) for _, b in diff], want=[list(a) for a, _ in diff])
+    for text, expect in wire_filters(ref):
+        try:
+            flt = _FILTER_MEMO.get(text)
+            if flt is None:
+                flt = _FILTER_MEMO[text] = compile_filter(text)
+            a = bool(flt.match(logged_entry, short_circuit=False))
+            b = bool(flt.match(got_entry, short_circuit=False))
+        except Exception:
+            continue
+        if a != b:
+            return dict(base, clause="a filter gives the same answer on the logged and on the " + stage + "ed entry",
+                        **{"class": key + "-filter-differs"}, message=ref.name, filter=text, got=b, want=a)
+    return None
+
+
 def check_wire_roundtrip(espec):
     """A message decoded from wire bytes, logged, frozen/thawed and exported/imported keeps its full dict
     (to_dict(extended=True), tuples/coordinates read as lists, block lists incl. the empty ones) and re-serialises to the
@@ -1852,14 +1962,24 @@ def check_wire_roundtrip(espec):
         v = diff("freeze/thaw", entry.message)
         if v:
             return v
+        # freezing again keeps it (since fix e4edfe3; the second freeze used to pickle None)
+        try:
+            entry.freeze()
+            again = entry.message
+        except Exception as ex:
+            return dict(base, clause="freezing an entry twice keeps the logged message", **{"class": "freeze-twice"},
+                        message=d0["message"], got="EXC:" + type(ex).__name__)
+        v = diff("freeze/thaw", again)
+        if v:
+            return dict(v, **{"class": "freeze-twice"})
         one = ml.LLUDPMessageLogEntry.from_dict(entry.to_dict())
-        v = diff("to_dict/from_dict", one.message)
+        v = diff("to_dict/from_dict", one.message) or same_message("to_dict/from_dict", "entry-dict", base, entry, ref, one)
         if v:
             return v
         imp = ml.import_log_entries(ml.export_log_entries([entry]))
         if len(imp) != 1 or not isinstance(imp[0], ml.LLUDPMessageLogEntry):
             return dict(base, clause="export/import preserves the entry", **{"class": "export-import"}, got=repr(imp)[:200])
-        v = diff("export/import", imp[0].message)
+        v = diff("export/import", imp[0].message) or same_message("export/import", "export-import", base, entry, ref, imp[0])
         if v:
             return v
         if imp[0].name != entry.name or imp[0].type != entry.type or imp[0].seq != entry.seq or imp[0].method != entry.method:
@@ -1927,6 +2047,14 @@ def check_roundtrip(espec):
             d1 = canon(entry.message.to_dict(extended=True))
             if d1 != d0:
                 return dict(base, clause="freeze/thaw preserves the logged message", **{"class": "freeze-thaw"}, got=d1, want=d0)
+            try:
+                entry.freeze()
+                d1 = canon(entry.message.to_dict(extended=True))
+            except Exception as ex:
+                return dict(base, clause="freezing an entry twice keeps the logged message", **{"class": "freeze-twice"},
+                            got="EXC:" + type(ex).__name__, want=d0)
+            if d1 != d0:
+                return dict(base, clause="freezing an entry twice keeps the logged message", **{"class": "freeze-twice"}, got=d1, want=d0)
             imp = ml.import_log_entries(ml.export_log_entries([entry]))
             if len(imp) != 1 or type(imp[0]) is not type(entry):
                 return dict(base, clause="export/import preserves the entry", **{"class": "export-import"}, got=repr(imp)[:200])
@@ -2003,7 +2131,9 @@ def correspond_roundtrip(ctx):
                           "IP, Fixed, Variable text/binary = str / JankStringyBytes / bytes), extra header bytes, acks, all 16 flag "
                           "combinations; after freeze/thaw, LLUDPMessageLogEntry.to_dict/from_dict, import_log_entries(export_log_entries) "
                           "(twice) the full to_dict(extended=True) (tuples and coordinate classes read as lists, empty block lists kept) AND "
-                          "the re-serialised datagram are compared with those of the logged message; the same messages in their event-queue "
+                          "the re-serialised datagram are compared with those of the logged message, the imported message must equal the "
+                          "logged one under Message.__eq__ with identical value classes, filters on its coordinates / texts must answer "
+                          "alike on the logged and the imported entry, and a second freeze() must keep the message; the same messages in their event-queue "
                           "form (LLSDMessageSerializer) through EQMessageLogEntry export/import and rebuilt. (b) hand-built Messages (values "
                           "of every Python type incl. None, present-but-empty block lists, message meta), the parsed ObjectUpdate fixture, "
                           "EQ events and HTTP flows: dict before/after. non-trivial = LLUDP entry with at least one block list")
@@ -2052,11 +2182,37 @@ def _f64(x):
     return struct.pack(">d", x).hex()
 
 
+def template_kind(msg_name, block_name, var_name):
+    """what LLUDPMessageLogEntry._restore_value_classes reads off the LIVE template for one variable: '2'/'3'/'4'/'q' = the
+    coordinate class _COORD_CLASSES gives its type, 's' = Fixed / Variable and not probably_binary, None = nothing to restore
+    (message, block or variable unknown, or another type)"""
+    from hippolyzer.lib.base import datatypes as dt
+    from hippolyzer.lib.base.message.msgtypes import MsgType
+    from hippolyzer.lib.base.message.template_dict import DEFAULT_TEMPLATE_DICT
+    from hippolyzer.lib.proxy import message_logger as ml
+    t = DEFAULT_TEMPLATE_DICT.get_template_by_name(msg_name)
+    b = t.block_map.get(block_name) if t else None
+    v = b.variable_map.get(var_name) if b else None
+    if v is None:
+        return None
+    coord = getattr(ml.LLUDPMessageLogEntry, "_COORD_CLASSES", None)
+    if coord is None:       # the code before fix 23066bc: no restoration at all (the model then disagrees, which is the point)
+        coord = {MsgType.MVT_LLVector3: dt.Vector3, MsgType.MVT_LLVector3d: dt.Vector3, MsgType.MVT_LLVector4: dt.Vector4,
+                 MsgType.MVT_LLQuaternion: dt.Quaternion}
+    if v.type in coord:
+        return {dt.Vector2: "2", dt.Vector3: "3", dt.Vector4: "4", dt.Quaternion: "q"}[coord[v.type]]
+    if v.type in (MsgType.MVT_FIXED, MsgType.MVT_VARIABLE) and not v.probably_binary:
+        return "s"
+    return None
+
+
 class _Tables:
-    """repr(float) renderings met while encoding a case (the model takes repr / float() as tables)"""
+    """repr(float) renderings and (message, block, variable) names met while encoding a case: the model takes repr / float()
+    and the template facts as tables"""
 
     def __init__(self):
         self.reals = {}
+        self.names = set()
 
     def real(self, x):
         k = _f64(x)
@@ -2064,7 +2220,12 @@ class _Tables:
         return k
 
     def text(self):
-        return "; " + " ".join("%s %s" % (k, _hx(v)) for k, v in sorted(self.reals.items())) + " ;"
+        facts = []
+        for mn, bn, vn in sorted(self.names):
+            k = template_kind(mn, bn, vn)
+            if k:
+                facts.append("%s %s %s %s" % (_hx(mn.encode("utf8")), _hx(bn.encode("utf8")), _hx(vn.encode("utf8")), k))
+        return "; " + " ".join("%s %s" % (k, _hx(v)) for k, v in sorted(self.reals.items())) + " ; ; " + " ".join(facts)
 
 
 def y_enc(v, tb):
@@ -2141,6 +2302,7 @@ def msg_enc(m, tb):
                     raise Unencodable("var name")
                 out.append(_hx(k.encode("utf8")))
                 out.append(y_enc(x, tb))
+                tb.names.add((m.name, bn, k))
     if m.packet_id is None:
         out.append("-")
     elif type(m.packet_id) is int:
@@ -2279,6 +2441,22 @@ def _err(s):
     return "ERR" if isinstance(s, str) and s.startswith("EXC:") else s
 
 
+def restore_outside(m):
+    """outside the model of the restoration: a coordinate variable holding an array with a component that is not a float
+    (float() of it), or a Quaternion variable holding fewer than four (W is then computed with float arithmetic)"""
+    from hippolyzer.lib.base.datatypes import TupleCoord
+    for bn, bl in m.blocks.items():
+        for b in bl:
+            for vn, x in b.vars.items():
+                k = template_kind(m.name, bn, vn)
+                if isinstance(x, TupleCoord):
+                    x = list(x)                 # the notation turns a coordinate into an array as well
+                if k in ("2", "3", "4", "q") and type(x) in (list, tuple, bytearray) and \
+                        (any(type(c) is not float for c in x) or (k == "q" and len(x) < 4)):
+                    return True
+    return False
+
+
 def x_msg_impl(spec):
     """the real code on one message: (driver line, [observations])"""
     from hippolyzer.lib.base import llsd
@@ -2293,10 +2471,23 @@ def x_msg_impl(spec):
     o_f = _try(lambda: msg_enc(Message.from_dict(d), tb))
     o_p = _try(lambda: msg_enc(Message.from_dict(llsd.parse_notation(nb)), tb))
     o_s = y_enc(m.to_dict(), tb)
-    return "XM " + line_msg + " " + tb.text(), [o_d, _hx(nb), _err(o_f), _err(o_p), o_s]
+
+    def restored():
+        from hippolyzer.lib.proxy import message_logger as ml
+        back = Message.from_dict(llsd.parse_notation(nb))
+        fn = getattr(ml.LLUDPMessageLogEntry, "_restore_value_classes", None)
+        if fn is not None:
+            fn(back)
+        return back
+    o_r = _try(lambda: msg_enc(restored(), tb))
+    eq = _try(lambda: "1" if restored() == m else "0")
+    if restore_outside(m):
+        o_r = "OUTSIDE"
+    return "XM " + line_msg + " " + tb.text(), [o_d, _hx(nb), _err(o_f), _err(o_p), o_s, _err(o_r), eq]
 
 
-X_FIELDS = ["to_dict(extended=True)", "format_notation", "from_dict(to_dict)", "from_dict(parse_notation(format_notation))", "to_dict()"]
+X_FIELDS = ["to_dict(extended=True)", "format_notation", "from_dict(to_dict)", "from_dict(parse_notation(format_notation))", "to_dict()",
+            "_restore_value_classes(from_dict(parse_notation(format_notation)))"]
 
 
 # ---- generators ------------------------------------------------------------
@@ -2403,6 +2594,34 @@ def x_hand_message(rng, empties=None):
     return m
 
 
+def x_perturbed_template_message(rng, wire_spec):
+    """a wire-decoded message with the values of a few variables replaced by what an addon (or an older export) might have put
+    there: arrays of the wrong length or class for a coordinate variable, other bytes classes for a stringy one, the other UUID
+    class, nested containers - the restoration must do exactly what its model does, incl. raising"""
+    import uuid
+    from hippolyzer.lib.base import datatypes as dt
+    m = x_message(wire_spec)
+    m.ensure_parsed()
+    slots = [(bn, i, vn) for bn, bl in m.blocks.items() for i, b in enumerate(bl) for vn in b.vars]
+    if not slots:
+        return m
+    for bn, i, vn in rng.sample(slots, min(len(slots), rng.choice((1, 1, 2, 4)))):
+        k = template_kind(m.name, bn, vn)
+        if k in ("2", "3", "4", "q"):
+            n = rng.choice((0, 1, 2, 3, 4, 5, 3, 4))
+            fl = [x_float(rng) for _ in range(n)]
+            v = rng.choice((fl, fl, tuple(fl), dt.Vector4(1.0, 2.0, 3.0, 4.0), dt.Vector3(1.0, 2.0, 3.0), dt.Quaternion(0.0, 0.0, 0.0, 1.0),
+                            None, 1.5, [fl], b"xyz"))
+        elif k == "s":
+            raw = rng.choice(X_BYTES)
+            v = rng.choice((bytes(raw), bytearray(raw), dt.RawBytes(raw), dt.JankStringyBytes(raw), "text", [1, 2], None))
+        else:
+            v = rng.choice((uuid.UUID(bytes=x_uuid_bytes(rng)), dt.UUID(bytes=x_uuid_bytes(rng)), [uuid.UUID(int=1), 2.5],
+                            (1.5, 2.5, 3.5), [1.5, 2.5, 3.5], b"plain", dt.JankStringyBytes(b"jank"), None, 7, "s"))
+        m.blocks[bn][i].vars[vn] = v
+    return m
+
+
 def gen_x_message_specs(ctx):
     """yields (tag, spec)"""
     rng = ctx.rng
@@ -2416,6 +2635,17 @@ def gen_x_message_specs(ctx):
             break
         yield "wire-" + w["tags"][0], {"wire": w["hex"], "lazy": w["lazy"]}
     tb = _Tables()
+    wires = [w for w in itertools.islice(gen_wire_specs(ctx), ctx.pick(80, 600))]
+    for _ in range(ctx.pick(200, 4000)):
+        if not wires:
+            break
+        w = rng.choice(wires)
+        try:
+            yield "template-perturbed", {"msg": msg_enc(x_perturbed_template_message(rng, {"wire": w["hex"], "lazy": False}), tb)}
+        except Unencodable:
+            pass
+        except Exception:
+            pass
     for pos in (["first"], ["middle"], ["last"], ["first", "last"], ["first", "middle", "last"]):
         for _ in range(ctx.pick(6, 40)):
             try:
@@ -2441,10 +2671,15 @@ def correspond_x_messages(ctx):
                           "values of every Python class (None, bool, ints beyond 64 bits, floats incl. -0.0 / inf / subnormal, str with "
                           "quotes / backslash / newline / non-ASCII, bytes, JankStringyBytes, RawBytes, bytearray, both UUID classes, "
                           "Vector2/3/4, Quaternion, nested tuples / lists / dicts), empty block lists at every position, empty names, meta, "
-                          "bytearray extra, list acks - are encoded by exact type and given to the extracted model; compared exactly: the "
+                          "bytearray extra, list acks; (c) wire-decoded messages with a few variables replaced by arrays of the wrong "
+                          "length / class, other bytes classes, the other UUID class - are encoded by exact type and given to the "
+                          "extracted model together with the LIVE template facts of every variable met (coordinate class by "
+                          "_COORD_CLASSES, Fixed/Variable and not probably_binary); compared exactly: the "
                           "tree of to_dict(extended=True) and of to_dict(), the BYTES of llsd.format_notation(to_dict), the message "
                           "Message.from_dict(to_dict) builds, the message Message.from_dict(parse_notation(format_notation(to_dict))) "
-                          "builds (every slot to_dict reads, value classes included).  non-trivial = at least one block list")
+                          "builds (every slot to_dict reads, value classes included), the message _restore_value_classes makes of it "
+                          "(or that it raises); every wire-decoded message must satisfy deser_classes, and whenever the model says "
+                          "deser_classes the real Message.__eq__(restored, logged) must hold.  non-trivial = at least one block list")
     lines, want, specs = [], [], []
     dist = {}
     skipped = 0
@@ -2463,24 +2698,38 @@ def correspond_x_messages(ctx):
         dist[tag] = dist.get(tag, 0) + 1
     outs = ctx.run_driver(lines) if lines else []
     nt = 0
-    flags = {"wf_msg": 0, "plain_msg": 0, "wfn": 0}
+    flags = {"wf_msg": 0, "plain_msg": 0, "wfn": 0, "deser_classes": 0, "wire": 0, "wire_deser_classes": 0, "restore_outside_model": 0}
     for (tag, spec), obs, out in zip(specs, want, outs):
         parts = out.split(" | ")
-        if len(parts) != 7:
+        if len(parts) != 9:
             res.disagreements.append(_x_case("msg", spec, "driver", out[:300], "-"))
             continue
         fl = parts[0]
         for i, k in enumerate(("wf_msg", "plain_msg", "wfn")):
             flags[k] += fl[i] == "1"
+        flags["deser_classes"] += parts[8] == "1"
+        if tag.startswith("wire"):
+            flags["wire"] += 1
+            flags["wire_deser_classes"] += parts[8] == "1"
         nt += 0 if obs[4].endswith(" M 0") else 1
-        for i in range(5):
-            if parts[1 + i] != obs[i]:
-                res.disagreements.append(_x_case("msg", spec, X_FIELDS[i], parts[1 + i][:2000], obs[i][:2000]))
+        model = parts[1:6] + [parts[7]]
+        if obs[5] == "OUTSIDE":
+            flags["restore_outside_model"] += 1
+            model[5] = "OUTSIDE"
+        for i in range(6):
+            if model[i] != obs[i]:
+                res.disagreements.append(_x_case("msg", spec, X_FIELDS[i], model[i][:2000], obs[i][:2000]))
                 break
         else:
-            # the proved statement, on this instance: well-formed => the notation leg gives norm_msg
+            # the proved statements, on this instance: well-formed => the notation leg gives norm_msg; with the deserializer's
+            # classes the restored message equals the logged one under the real Message.__eq__ (C18_import_exact)
             if fl[0] == "1" and fl[2] == "1" and parts[5] != "ERR" and parts[4] != parts[6]:
                 res.disagreements.append(_x_case("msg", spec, "norm_msg", parts[6][:2000], parts[4][:2000]))
+            elif fl[0] == "1" and fl[2] == "1" and parts[8] == "1" and obs[6] != "1":
+                res.disagreements.append(_x_case("msg", spec, "Message.__eq__(restored, logged)", "1", obs[6]))
+            elif tag.startswith("wire") and parts[8] != "1":
+                # every message the deserializer builds must satisfy the hypothesis of the exact theorem
+                res.disagreements.append(_x_case("msg", spec, "deser_classes of a wire-decoded message", "0", "wire-decoded"))
         if len(res.samples) < 3 and tag.startswith("hand"):
             res.samples.append({"spec": spec, "model": out[:400]})
     res.evaluations = len(lines)
@@ -2706,6 +2955,18 @@ def x_entry(rng, payload):
         del e.meta[rng.choice(("AgentID", "SelectedFull", "SessionID"))]        # KeyError in to_dict
     elif r < 0.08:
         e.meta["Extra"] = rng.choice((1, "x", None))                            # an added plain key survives
+    elif r < 0.12:
+        del e.meta[rng.choice(("AgentLocal", "Method", "RegionName", "Type"))]  # comes back from the constructor's dict
+    elif r < 0.18:
+        ks = list(e.meta)
+        rng.shuffle(ks)
+        e.meta = {k: e.meta[k] for k in ks}                                     # update() keeps the constructor's order
+    elif r < 0.30:
+        # values other than None / UUID under a UUID-valued key: falsy ones are left alone (`if meta[key]`), a str is taken for
+        # the text of a UUID (only values repr / literal_eval can carry)
+        e.meta[rng.choice(("AgentID", "SelectedFull", "SessionID"))] = rng.choice(
+            (0, 0.0, -0.0, "", b"", [], (), {}, False, "00000000-0000-0000-0000-0000000000ff", "abc",
+             "ABCDEF00-0000-0000-0000-000000000001", "0000000g-0000-0000-0000-000000000001"))
     return e
 
 
@@ -2741,6 +3002,8 @@ def x_entries_impl(specs):
     for e in entries:
         if type(e) is ml.LLUDPMessageLogEntry:
             e.message.ensure_parsed()
+            if restore_outside(e.message):
+                raise Unencodable("restoration outside the model")
         enc, su = entry_enc(e, tb)
         encs.append(enc + " " + _hx(su.encode("utf8")))
     obs = []
@@ -2785,6 +3048,9 @@ def gen_x_entry_lists(ctx):
                 if r < 0.35 and wires:
                     ps = rng.choice(wires)
                     payload = x_message(ps)
+                elif r < 0.45 and wires:
+                    payload = x_perturbed_template_message(rng, dict(rng.choice(wires), lazy=False))
+                    ps = {"msg": msg_enc(payload, tb)}
                 elif r < 0.75:
                     payload = x_hand_message(rng)
                     ps = {"msg": msg_enc(payload, tb)}
@@ -2854,11 +3120,12 @@ def correspond_x_entries(ctx):
     try:
         obs = measure_class_loss(ctx)
         res.distribution["observed_on_live_code"] = obs
-        ctx.notes.append("export/import normal form on the live code (C18_dict_classes_lost_refuted): Message.__eq__ tells the imported "
-                         "message from the logged one for %d of %d wire-decoded messages; filters [logged, imported]: %s; a second "
-                         "freeze() keeps the message: %s (C18_freeze_twice_refuted / C18_freeze_idempotent; proposed repair "
-                         ".proposed/C18-freeze-twice.diff)" % (obs["message_eq_false_after_import"], obs["wire_messages"],
-                                                               obs["filters_logged_vs_imported"], obs["second_freeze_keeps_message"]))
+        ctx.notes.append("export/import on the live code: Message.__eq__ tells the imported message from the logged one for %d of %d "
+                         "wire-decoded messages (0 since fix 23066bc; asserted per message by the impl-level oracle); a hand-built "
+                         "message OUTSIDE the template still comes back in normal form only (C18_dict_classes_lost_refuted), filters "
+                         "[logged, imported]: %s; a second freeze() keeps the message: %s (fix e4edfe3, C18_freeze_idempotent)"
+                         % (obs["message_eq_false_after_import"], obs["wire_messages"], obs["filters_logged_vs_imported"],
+                            obs["second_freeze_keeps_message"]))
     except Exception:
         pass
     res.samples = [{"entries": len(s), "model": o[:300]} for s, o in list(zip(specs, outs))[:2]]
